@@ -661,7 +661,7 @@ func cfgGME(c *cfgCase, rng *vRand, cfg *pb.ApiConfig) {
 
 func cfgCaseCount(e vEnv) int64 {
 	if e.Tier == "thorough" {
-		return 500000
+		return 1500000
 	}
 	return 16000
 }
